@@ -38,9 +38,9 @@ RULE = ("one case = one dataset, evaluated under every scheme of the tier's sche
         "return_at_most_one_ranking. quick: every dataset over R(3) with 1..2 rankings (canonical names), plus 400 "
         "seeded datasets n<=5, m<=4 cycling through 6 element-name kinds (canonical, permuted ints, hash-colliding "
         "ints, strings, integer-like strings, mixed), 14 schemes (unifying x1, x2, x1/4; three schemes proportional "
-        "to unifying on B only; presets; generic / boundary schemes). thorough: R(3) m<=3, R(4) m<=2 (datasets of 3 rankings and "
-        "those over 4 names under a rotating window of 9 of the 27 schemes), 4000 samples n<=6, m<=5 under all 27 "
-        "schemes. Non-trivial = universe of >= 2 elements (at least one pair is scored); distinct = "
+        "to unifying on B only; presets; generic / boundary schemes). thorough: R(3) m<=3, R(4) m<=2 (datasets of 3 "
+        "rankings and those over 4 names under a rotating window of 9 of the 27 schemes), 4000 samples n<=6, m<=5 "
+        "under all 27 schemes. Non-trivial = universe of >= 2 elements (at least one pair is scored); distinct = "
         "distinct (dataset, scheme) pair.")
 SCOPE = {"quick": "all datasets n<=3 m<=2 (701) + 400 sampled n<=5 m<=4; 14 schemes; both flag values",
          "thorough": "all datasets n<=3 m<=2 x 27 schemes; n<=3 m=3 (17.6k) and n=4 m<=2 (21.9k) x 9 rotating "
@@ -111,7 +111,7 @@ def check_case(case):
     evals = 0
 
     def fail(clause, site, scheme, one, **detail):
-        detail.update({"scheme": scheme, "return_at_most_one_ranking": one})
+        detail.update({"scheme": scheme, "return_at_most_one_ranking": one, "rankings_as_given": rankings})
         fails.append({"clause": clause, "site": site, "detail": detail})
 
     for scheme in schemes:
